@@ -259,7 +259,7 @@ class World(object):
                     except Exception as e:
                         got = e
                     if not (isinstance(got, np.ndarray) and got.shape == exp.shape and
-                            np.array_equal(np.asarray(got, dtype=np.float64), exp)):
+                            np.array_equal(np.asarray(got, dtype=np.float64), exp, equal_nan=True)):
                         bad.append(('store', 'waveforms-differ-from-raw', describe(exp), describe(got)))
                     # a request that mixes stored and unstored spikes falls back to the raw data and
                     # must give the same windows
@@ -276,7 +276,7 @@ class World(object):
                     except Exception as e:
                         got_all = e
                     if not (isinstance(got_all, np.ndarray) and got_all.shape == exp_all.shape and
-                            np.array_equal(np.asarray(got_all, dtype=np.float64), exp_all)):
+                            np.array_equal(np.asarray(got_all, dtype=np.float64), exp_all, equal_nan=True)):
                         bad.append(('store', 'mixed-stored-unstored-request-differs-from-raw',
                                     describe(exp_all), describe(got_all)))
                     st = tr['spike_templates']
@@ -323,6 +323,9 @@ def make_bases(ctx):
                 'spike_templates': [0, 1, 2, 0, 0, 1, 0, 2], 'raw': raw, 'features': 'absent',
                 'tfeatures': 'absent', 'whitening_inv': True, 'fill': ctx.seed, 'naming': naming,
                 'channel_map': 'perm' if raw else 'identity'}
+        if raw:
+            # a float recording with a few non-finite samples: the store holds what the raw data holds
+            spec.update(raw_dtype='float32', raw_nonfinite=True)
         if name == 'noraw':
             # this dataset comes with a metadata file whose content equals one of the mappings of
             # the alphabet (saving another mapping and then this one again must rewrite the file)
